@@ -686,6 +686,17 @@ class Terms(object):
         from .roles import reaches_io
         if callee in reaches_io(self.ctx) or self.ctx.modsets.get(callee):
             return False      # functions with I/O or side effects stay opaque calls
+        if callee.is_method and callee.cls is not None and callee.name != "__init__":
+            # a method of a stateful container (some other method mutates the object): its result depends on that state,
+            # not only on its arguments - it stays an opaque call whatever its size
+            selfn = callee.params[0] if callee.params else None
+            reads = set(x.attr for x in walk_own(callee.node) if isinstance(x, ast.Attribute) and isinstance(x.value, ast.Name) and x.value.id == selfn)
+            for m in callee.cls.methods.values():
+                if m.name == "__init__" or not m.params:
+                    continue
+                for (q, attr) in (self.ctx.modsets.get(m) or ()):
+                    if q == m.params[0] and attr.split(".")[0] in reads:
+                        return False
         for cs in self.ctx.cg.sites.get(callee, []):
             if cs.ext and cs.ext.split(".")[0] in ("os", "socket", "time", "select", "asyncio", "io", "shutil", "subprocess"):
                 return False  # reads the environment: not a function of its arguments
